@@ -239,6 +239,12 @@ def allocSeq : Nat → List Bool → List (Bool × Nat)
   | _, [] => []
   | c, api :: rest => (api, (allocId c).1) :: allocSeq (allocId c).2 rest
 
+/-- The ids handed out when SEVERAL THREADS create timers: `sched` lists, in the order in which the `fetch_add`s on the one
+    process-wide `AtomicUsize` take effect (an atomic read-modify-write has a total order), the thread performing each. -/
+def allocThreads : Nat → List Nat → List (Nat × Nat)
+  | _, [] => []
+  | c, th :: rest => (th, (allocId c).1) :: allocThreads (allocId c).2 rest
+
 /-! ### several timers, command API (each timer has its own Command) -/
 
 inductive Host where
